@@ -126,14 +126,11 @@ def run_family(mod, T, fname, triple, fi_ranges, cstr_end=None):
     base, we, sh = triple
     args = [P(('fn', 'handler')), P(('arg', 1)), Fv(None), w, p, Lin.sym('ops'), Lin(base), Lin(we), Lin(sh)]
     st = sx.start(f, args, [-w, -p])
-    settable = set(T['flags'].values()) | {T['prec']}      # the upper-case bit only selects characters (R-UPPER)
-    for i in range(32):
-        m = 1 << i
-        b = Lin.sym(('ops', 'bit', i))
-        st.cons.add_le(0, b)
-        st.cons.add_le(b, 1)
-        if m not in settable:
-            st.cons.add_eq(b, 0)
+    # the upper-case bit only selects characters (rule R-UPPER): one value is enough for the layout; every other bit of
+    # the directive word is left free (a superset of what the parser can produce)
+    b = Lin.sym(('ops', 'bit', T['upper'].bit_length() - 1))
+    st.cons.add_le(0, b)
+    st.cons.add_le(b, 0)
     rets = sx.run_function(f, st)
     return sx, rets, (w, p)
 
